@@ -19,7 +19,7 @@ func init() {
 			"(sync-first-guard) the inline first task is taken only when num == 0 && (one task || needAll); needAll = !eager; " +
 			"(poll-all) getFromReadyChannels asks every channel of the run, unconditionally; " +
 			"(wait-all-drains) waitAll loops until waitOne reports nothing outstanding.",
-		decided:    []string{"lock-region", "push-on-every-exit", "refill-after-receive", "count-pairing", "sync-first-guard", "poll-all", "wait-all-drains"},
+		decided:    []string{"lock-region", "push-on-every-exit", "refill-after-receive", "count-pairing", "sync-first-guard", "poll-all", "wait-all-drains", "computed-tasks-kept", "resolved-once", "visits-all"},
 		notDecided: []string{"linearizability of the hand-off protocol under all interleavings (a model-checking question)", "determinism of user node functions", "fairness of the Go scheduler"},
 		run:        runC03,
 	})
